@@ -554,7 +554,7 @@ def ecWrite (ed : Ed) (loc cmd arg : Bytes) : R Int :=
                   let lb := savedCore cur.lb false
                   some (0, ed.setCur { cur with lb := (modified lb).2, mtime := ed.mtimeOf path })
                 else if cur.path == path then
-                  some (0, ed.setCur { cur with mtime := ed.mtimeOf path })
+                  some (0, ed.setCur { cur with lb := unsavedMark cur.lb, mtime := ed.mtimeOf path })
                 else some (0, ed.setCur cur)
 
 /-- `ex_exec(ln)` -/
